@@ -1236,7 +1236,8 @@ def dec2hp_v(dec):
 
 
 def hp2dec_v(hp):
-    degmin, second = divmod(abs(hp) * 1000, 10)
+    # round to the 13 decimal places of HP notation before splitting digits
+    degmin, second = divmod((abs(hp) * 1000).round(10), 10)
     degree, minute = divmod(degmin, 100)
     dec = degree + (minute / 60) + (second / 360)
     dec[hp <= 0] = -dec[hp <= 0]
